@@ -396,3 +396,23 @@ def tails_after_skeletons(depth):
             body.pop()
         yield body + tails[k % len(tails)]
         k += 1
+
+
+def switch_branching_labels():
+    """switches whose case labels are themselves branching expressions (ternary / && / ||) in every position,
+    with literal and property labels around them; all default positions; bodies tag r and break"""
+    I = lambda v: lit('int', v)
+    int_labels = [I(1), ('tern', P('b', 'flag'), I(2), I(3)), P('b', 'ival'), ('tern', ('bin', '&&', P('a', 'flag'), P('c', 'flag')), I(5), P('c', 'ival'))]
+    bool_labels = [('bin', '&&', P('b', 'flag'), P('c', 'flag')), ('bin', '||', P('b', 'flag'), P('c', 'flag')), lit('bool', True), ('tern', P('b', 'flag'), P('c', 'flag'), lit('bool', False))]
+    for discr, labels in ((P('a', 'ival'), int_labels), (P('a', 'flag'), bool_labels)):
+        for n in (2, 3):
+            for combo in itertools.product(range(len(labels)), repeat=n):
+                if all(labels[k][0] in ('lit', 'prop') for k in combo):
+                    continue        # covered by switch_skeletons
+                for dpos in (None, 0, n):
+                    cases = []
+                    for bi, k in enumerate(combo):
+                        cases.append((labels[k], [bit(bi), ('break',)] if bi % 2 == 0 else [bit(bi)]))
+                    if dpos is not None:
+                        cases.insert(dpos, (None, [bit(6), ('break',)]))
+                    yield [('let', 'let', 'r', None, I(0)), ('switch', discr, cases), ('return', ('local', 'r'))]
